@@ -30,8 +30,9 @@ def run(ctx):
     if ctx.quick:
         AG.model_check(rep, "AG_prog_mc", dict(MaxNodes=4, GAlpha={-2}, Ops=ALL, UseVec=True, MaxBackward=1, Acts={"op", "bw"}, InitLeaves=VS))
         AG.model_check(rep, "AG_prog_mc_scalar5", dict(MaxNodes=5, GAlpha={-2}, Ops={"add", "mul", "sub"}, MaxBackward=1, Acts={"op", "bw"}, InitLeaves=SS))
-        runs = [("prog-vec", dict(MaxNodes=4, GAlpha={-2}, Ops=ALL, UseVec=True, MaxHist=3, MaxBackward=1, Acts={"op", "bw"}, InitLeaves=VS), None),
-                ("prog-vec-nograd", dict(MaxNodes=4, GAlpha={3}, Ops=ALL, UseVec=True, MaxHist=3, MaxBackward=1, Acts={"op", "bw"}, InitLeaves=VN), None),
+        # (upstream gradients of vector roots have distinct entries: a uniform one hides mis-paired operands)
+        runs = [("prog-vec", dict(MaxNodes=4, GAlpha={-2, 3}, Ops=ALL, UseVec=True, MaxHist=3, MaxBackward=1, Acts={"op", "bw"}, InitLeaves=VS), None),
+                ("prog-vec-nograd", dict(MaxNodes=4, GAlpha={3, -2}, Ops=ALL, UseVec=True, MaxHist=3, MaxBackward=1, Acts={"op", "bw"}, InitLeaves=VN), None),
                 ("prog-scalar5", dict(MaxNodes=5, GAlpha={-2}, Ops={"add", "mul"}, MaxHist=4, MaxBackward=1, Acts={"op", "bw"}, InitLeaves=SS), 60000),
                 # an earlier result (root or interior of a previous backward) reused inside a new graph that is differentiated again
                 ("prog-reuse", dict(MaxNodes=4, GAlpha={-2}, Ops={"add", "mul"}, MaxHist=4, MaxBackward=2, Acts={"op", "bw"}, InitLeaves=SS), 40000)]
@@ -40,7 +41,7 @@ def run(ctx):
     else:
         AG.model_check(rep, "AG_prog_mc", dict(MaxNodes=5, GAlpha={-2}, Ops=ALL, UseVec=True, MaxBackward=1, Acts={"op", "bw"}, InitLeaves=VS), timeout=10000)
         AG.model_check(rep, "AG_prog_mc_scalar6", dict(MaxNodes=6, GAlpha={-2}, Ops={"add", "mul"}, MaxBackward=1, Acts={"op", "bw"}, InitLeaves=SS), timeout=10000)
-        runs = [("prog-vec", dict(MaxNodes=5, GAlpha={-2}, Ops=ALL, UseVec=True, MaxHist=4, MaxBackward=1, Acts={"op", "bw"}, InitLeaves=VS), 800000),
+        runs = [("prog-vec", dict(MaxNodes=5, GAlpha={-2, 3}, Ops=ALL, UseVec=True, MaxHist=4, MaxBackward=1, Acts={"op", "bw"}, InitLeaves=VS), 800000),
                 ("prog-vec-nograd", dict(MaxNodes=4, GAlpha={3, -1}, Ops=ALL, UseVec=True, MaxHist=3, MaxBackward=1, Acts={"op", "bw"}, InitLeaves=VN), None),
                 ("prog-scalar5", dict(MaxNodes=5, GAlpha={-2}, Ops={"add", "mul", "sub"}, MaxHist=4, MaxBackward=1, Acts={"op", "bw"}, InitLeaves=SS), None),
                 ("prog-reuse", dict(MaxNodes=5, GAlpha={-2}, Ops={"add", "mul"}, MaxHist=5, MaxBackward=2, Acts={"op", "bw"}, InitLeaves=SS), 400000)]
